@@ -3,14 +3,272 @@ import Emitter.Lemmas.Lww
 namespace Emitter.Security
 open Emitter
 
+/-! ### bit facts on permission bytes -/
+
+theorem u8_or_and (a b c : UInt8) : (a ||| b) &&& c = (a &&& c) ||| (b &&& c) := by
+  rw [← UInt8.toBitVec_inj]
+  simp only [UInt8.toBitVec_and, UInt8.toBitVec_or]
+  exact BitVec.and_or_distrib_right
+
+theorem u8_and_mask_self (a m : UInt8) : (a &&& m) &&& a = a &&& m := by
+  rw [UInt8.and_comm, ← UInt8.and_assoc, UInt8.and_self]
+
+theorem u8_and_and_self (a m : UInt8) : (a &&& m) &&& m = a &&& m := by
+  rw [UInt8.and_assoc, UInt8.and_self]
+
+theorem u8_sub_parent (p m a : UInt8) : ((p &&& m) &&& a) &&& p = (p &&& m) &&& a := by
+  rw [UInt8.and_comm, ← UInt8.and_assoc, ← UInt8.and_assoc, UInt8.and_self]
+
+theorem u8_clear_master (a : UInt8) : (a &&& (0xFF ^^^ permMaster)) &&& permMaster = 0 := by
+  rw [UInt8.and_assoc]
+  have : ((0xFF ^^^ permMaster) &&& permMaster) = 0 := by decide
+  rw [this, UInt8.and_zero]
+
+theorem u8_clear_extend (p a : UInt8) : ((p &&& (0xFF ^^^ permExtend)) &&& a) &&& permExtend = 0 := by
+  rw [UInt8.and_assoc, UInt8.and_comm a, ← UInt8.and_assoc, UInt8.and_assoc p]
+  have : ((0xFF ^^^ permExtend) &&& permExtend) = 0 := by decide
+  rw [this, UInt8.and_zero, UInt8.zero_and]
+
+/-! ### 24-byte keys: what the setters touch -/
+
+theorem setAt_b (k : Key) (i : Nat) (v : Bytes) (j : Nat) (h : i + v.length ≤ k.length) :
+    (k.setAt i v).b j = if i ≤ j ∧ j < i + v.length then v.getD (j - i) 0 else k.b j := by
+  split
+  next hc => exact setAt_b_in k i v j (by omega) hc.1 hc.2
+  next hc => exact setAt_b_out k i v j h (by omega)
+
+theorem setAt_b24 (k : Key) (i : Nat) (v : Bytes) (j n : Nat) (hk : k.length = 24) (hv : v.length = n)
+    (h : i + n ≤ 24) :
+    (k.setAt i v).b j = if i ≤ j ∧ j < i + n then v.getD (j - i) 0 else k.b j := by
+  subst hv; exact setAt_b k i v j (by omega)
+
+theorem len24_setAt (k : Key) (i : Nat) (v : Bytes) (hk : k.length = 24) (h : i + v.length ≤ 24) :
+    (k.setAt i v).length = 24 := by
+  rw [setAt_length k i v (by omega), hk]
+
+theorem len24_setPermissions (k : Key) (p : UInt8) (hk : k.length = 24) : (k.setPermissions p).length = 24 :=
+  len24_setAt k 15 [p] hk (by simp)
+
+theorem len24_setExpires (k : Key) (t : Int) (hk : k.length = 24) : (k.setExpires t).length = 24 :=
+  len24_setAt k 20 _ hk (by simp [putBe32])
+
+theorem setPermissions_b (k : Key) (p : UInt8) (j : Nat) (hk : k.length = 24) :
+    (k.setPermissions p).b j = if j = 15 then p else k.b j := by
+  unfold Key.setPermissions
+  rw [setAt_b k 15 [p] j (by simp [hk])]
+  by_cases h : j = 15
+  · subst h; simp
+  · have : ¬ (15 ≤ j ∧ j < 15 + ([p] : Bytes).length) := by simp; omega
+    rw [if_neg this, if_neg h]
+
+theorem setPermissions_permissions (k : Key) (p : UInt8) (hk : k.length = 24) :
+    (k.setPermissions p).permissions = p := by
+  unfold Key.permissions; rw [setPermissions_b k p 15 hk, if_pos rfl]
+
+theorem setExpires_b_out (k : Key) (t : Int) (j : Nat) (hk : k.length = 24) (hj : j < 20) :
+    (k.setExpires t).b j = k.b j := by
+  unfold Key.setExpires
+  exact setAt_b_out k 20 _ j (by simp [putBe32, hk]) (Or.inl hj)
+
+theorem setExpires_expireField (k1 k2 : Key) (t : Int) (h1 : k1.length = 24) (h2 : k2.length = 24) :
+    (k1.setExpires t).expireField = (k2.setExpires t).expireField := by
+  unfold Key.expireField Key.setExpires
+  simp only []
+  rw [setAt_b_in k1 20 _ 20 (by omega) (by omega) (by simp [putBe32]),
+    setAt_b_in k1 20 _ 21 (by omega) (by omega) (by simp [putBe32]),
+    setAt_b_in k1 20 _ 22 (by omega) (by omega) (by simp [putBe32]),
+    setAt_b_in k1 20 _ 23 (by omega) (by omega) (by simp [putBe32]),
+    setAt_b_in k2 20 _ 20 (by omega) (by omega) (by simp [putBe32]),
+    setAt_b_in k2 20 _ 21 (by omega) (by omega) (by simp [putBe32]),
+    setAt_b_in k2 20 _ 22 (by omega) (by omega) (by simp [putBe32]),
+    setAt_b_in k2 20 _ 23 (by omega) (by omega) (by simp [putBe32])]
+
+/-- the level list `SetTarget` works on (trailing "#" removed) -/
+def tgtParts (ch : Bytes) : List Bytes :=
+  if (splitSlash (trimRightSlash ch)).getLast? == some hashSym then (splitSlash (trimRightSlash ch)).dropLast
+  else splitSlash (trimRightSlash ch)
+
+def tgtPath (ch : Bytes) : Nat :=
+  (if (splitSlash (trimRightSlash ch)).getLast? == some hashSym then 0 else 2 ^ 23) + bitPathOf (tgtParts ch) 0
+
+theorem setTarget_def (k : Key) (ch : Bytes) :
+    k.setTarget ch =
+      if ch.getLast? != some sep then .err "target-invalid" else
+      if (tgtParts ch).length > 23 then .err "target-too-long" else
+      .ok ((k.setAt 12 [UInt8.ofNat (tgtPath ch / 65536), UInt8.ofNat (tgtPath ch / 256), UInt8.ofNat (tgtPath ch)]).setAt 16
+        (putBe32 (Hash.hashOf (joinSlash (tgtParts ch))))) := rfl
+
+/-- `SetTarget` on a key either fails (for reasons that depend on the channel alone) or
+rewrites bytes 12..14 and 16..19 with values that depend on the channel alone. -/
+theorem setTarget_shape (k : Key) (ch : Bytes) (k' : Key) (h : k.setTarget ch = .ok k') :
+    ∃ v3 v4 : Bytes, v3.length = 3 ∧ v4.length = 4 ∧ k' = (k.setAt 12 v3).setAt 16 v4 ∧
+      ∀ k2 : Key, k2.setTarget ch = .ok ((k2.setAt 12 v3).setAt 16 v4) := by
+  rw [setTarget_def] at h
+  by_cases hc1 : (ch.getLast? != some sep) = true
+  · rw [if_pos hc1] at h; cases h
+  · rw [if_neg hc1] at h
+    by_cases hc2 : (tgtParts ch).length > 23
+    · rw [if_pos hc2] at h; cases h
+    · rw [if_neg hc2] at h
+      cases h
+      refine ⟨_, _, rfl, rfl, rfl, ?_⟩
+      intro k2
+      rw [setTarget_def, if_neg hc1, if_neg hc2]
+
+theorem setAt2_b (k : Key) (hk : k.length = 24) (v3 v4 : Bytes) (h3 : v3.length = 3) (h4 : v4.length = 4) (j : Nat) :
+    ((k.setAt 12 v3).setAt 16 v4).b j =
+      if 12 ≤ j ∧ j < 15 then v3.getD (j - 12) 0 else if 16 ≤ j ∧ j < 20 then v4.getD (j - 16) 0 else k.b j := by
+  have hl := len24_setAt k 12 v3 hk (by omega)
+  rw [setAt_b _ 16 v4 j (by omega), setAt_b k 12 v3 j (by omega), h3, h4]
+  by_cases c1 : 16 ≤ j ∧ j < 16 + 4
+  · rw [if_pos c1, if_neg (by omega), if_pos (by omega)]
+  · rw [if_neg c1]
+    by_cases c2 : 12 ≤ j ∧ j < 12 + 3
+    · rw [if_pos c2, if_pos (by omega)]
+    · rw [if_neg c2, if_neg (by omega), if_neg (by omega)]
+
+/-- what `SetTarget` does to two 24-byte keys: same target fields, everything else untouched -/
+theorem setTarget_rel (k1 k2 : Key) (h1 : k1.length = 24) (h2 : k2.length = 24) (ch : Bytes) (k1' : Key)
+    (h : k1.setTarget ch = .ok k1') :
+    k1'.length = 24 ∧ (∀ i, i < 12 ∨ i = 15 ∨ 20 ≤ i → k1'.b i = k1.b i) ∧
+    ∃ k2', k2.setTarget ch = .ok k2' ∧ k1'.targetPath = k2'.targetPath ∧ k1'.target = k2'.target := by
+  obtain ⟨v3, v4, h3, h4, rfl, hall⟩ := setTarget_shape k1 ch k1' h
+  refine ⟨?_, ?_, _, hall k2, ?_, ?_⟩
+  · exact len24_setAt _ 16 v4 (len24_setAt k1 12 v3 h1 (by omega)) (by omega)
+  · intro i hi
+    rw [setAt2_b k1 h1 v3 v4 h3 h4, if_neg (by omega), if_neg (by omega)]
+  · unfold Key.targetPath
+    simp [setAt2_b, h1, h2, h3, h4]
+  · unfold Key.target
+    simp [setAt2_b, h1, h2, h3, h4]
+
 /-! ### C11: key generation -/
+
+/-- the stages of the key `CreateKey` builds before `SetTarget` -/
+def pk4 (mk : Key) (salt : UInt16) : Key :=
+  Key.setAt (Key.setAt (Key.setAt (Key.setAt (List.replicate 24 0) 0 (putBe16 salt)) 2 (putBe16 mk.master)) 4
+    (putBe32 mk.contract)) 8 (putBe32 mk.signature)
+
+def pk6 (mk : Key) (access : UInt8) (expires : Int) (salt : UInt16) : Key :=
+  Key.setExpires (Key.setPermissions (pk4 mk salt) access) expires
+
+/-- the key `CreateKey` hands to `SetTarget` -/
+def preKey (mk : Key) (access : UInt8) (expires : Int) (salt : UInt16) : Key :=
+  Key.setPermissions (pk6 mk access expires salt) ((pk6 mk access expires salt).permissions &&& (0xFF ^^^ permMaster))
+
+theorem createKey_ok (e : Env) (masterStr channel : Bytes) (access : UInt8) (expires : Int) (salt : UInt16)
+    (k : Key) (h : createKey e masterStr channel access expires salt = .ok k) :
+    ∃ mk, e.decrypt masterStr = some mk ∧ mk.isMaster = true ∧ mk.isExpired e.now = false ∧ e.contractOk mk = true ∧
+      (preKey mk access expires salt).setTarget channel = .ok k := by
+  unfold createKey at h
+  cases hd : e.decrypt masterStr with
+  | none => rw [hd] at h; cases h
+  | some mk =>
+    rw [hd] at h
+    dsimp only at h
+    by_cases h1 : (!mk.isMaster || mk.isExpired e.now) = true
+    · rw [if_pos h1] at h; cases h
+    · rw [if_neg h1] at h
+      by_cases h2 : (mk.contract != e.contractId) = true
+      · rw [if_pos h2] at h; cases h
+      · rw [if_neg h2] at h
+        by_cases h3 : (!e.contractOk mk) = true
+        · rw [if_pos h3] at h; cases h
+        · rw [if_neg h3] at h
+          refine ⟨mk, rfl, ?_, ?_, ?_, h⟩
+          · cases hm : mk.isMaster <;> simp_all
+          · cases hm : mk.isExpired e.now <;> simp_all
+          · simpa using h3
+
+theorem pk4_facts (mk : Key) (salt : UInt16) :
+    (pk4 mk salt).length = 24 ∧ (pk4 mk salt).contract = mk.contract ∧
+    (pk4 mk salt).signature = mk.signature ∧ (pk4 mk salt).master = mk.master := by
+  have l0 : (List.replicate 24 (0 : UInt8)).length = 24 := by simp
+  have l1 := len24_setAt _ 0 (putBe16 salt) l0 (by simp [putBe16])
+  have l2 := len24_setAt _ 2 (putBe16 mk.master) l1 (by simp [putBe16])
+  have l3 := len24_setAt _ 4 (putBe32 mk.contract) l2 (by simp [putBe32])
+  have l4 := len24_setAt _ 8 (putBe32 mk.signature) l3 (by simp [putBe32])
+  refine ⟨l4, ?_, ?_, ?_⟩
+  · unfold Key.contract pk4
+    rw [setAt_b24 _ 8 _ 4 4 l3 rfl (by omega), setAt_b24 _ 8 _ 5 4 l3 rfl (by omega),
+      setAt_b24 _ 8 _ 6 4 l3 rfl (by omega), setAt_b24 _ 8 _ 7 4 l3 rfl (by omega),
+      setAt_b24 _ 4 _ 4 4 l2 rfl (by omega), setAt_b24 _ 4 _ 5 4 l2 rfl (by omega),
+      setAt_b24 _ 4 _ 6 4 l2 rfl (by omega), setAt_b24 _ 4 _ 7 4 l2 rfl (by omega)]
+    simp only [putBe32]
+    exact be32_putBe32 _
+  · unfold Key.signature pk4
+    rw [setAt_b24 _ 8 _ 8 4 l3 rfl (by omega), setAt_b24 _ 8 _ 9 4 l3 rfl (by omega),
+      setAt_b24 _ 8 _ 10 4 l3 rfl (by omega), setAt_b24 _ 8 _ 11 4 l3 rfl (by omega)]
+    simp only [putBe32]
+    exact be32_putBe32 _
+  · unfold Key.master pk4
+    rw [setAt_b24 _ 8 _ 2 4 l3 rfl (by omega), setAt_b24 _ 8 _ 3 4 l3 rfl (by omega),
+      setAt_b24 _ 4 _ 2 4 l2 rfl (by omega), setAt_b24 _ 4 _ 3 4 l2 rfl (by omega),
+      setAt_b24 _ 2 _ 2 2 l1 rfl (by omega), setAt_b24 _ 2 _ 3 2 l1 rfl (by omega)]
+    simp only [putBe16]
+    exact be16_putBe16 _
+
+theorem preKey_facts (mk : Key) (access : UInt8) (expires : Int) (salt : UInt16) :
+    (preKey mk access expires salt).length = 24 ∧
+    (preKey mk access expires salt).permissions = access &&& (0xFF ^^^ permMaster) ∧
+    (preKey mk access expires salt).contract = mk.contract ∧
+    (preKey mk access expires salt).signature = mk.signature ∧
+    (preKey mk access expires salt).master = mk.master ∧
+    (preKey mk access expires salt).expireField = (Key.setExpires (List.replicate 24 (0 : UInt8)) expires).expireField := by
+  obtain ⟨l4, hc, hs, hm⟩ := pk4_facts mk salt
+  have l5 := len24_setPermissions _ access l4
+  have l6 : (pk6 mk access expires salt).length = 24 := len24_setExpires _ expires l5
+  have l7 : (preKey mk access expires salt).length = 24 := len24_setPermissions _ _ l6
+  have hb : ∀ j, j < 12 → (preKey mk access expires salt).b j = (pk4 mk salt).b j := by
+    intro j hj
+    unfold preKey
+    rw [setPermissions_b _ _ j l6, if_neg (by omega)]
+    unfold pk6
+    rw [setExpires_b_out _ _ j l5 (by omega), setPermissions_b _ _ j l4, if_neg (by omega)]
+  refine ⟨l7, ?_, ?_, ?_, ?_, ?_⟩
+  · unfold preKey
+    rw [setPermissions_permissions _ _ l6]
+    have hp : (pk6 mk access expires salt).permissions = access := by
+      unfold Key.permissions pk6
+      rw [setExpires_b_out _ _ 15 l5 (by omega), setPermissions_b _ _ 15 l4, if_pos rfl]
+    rw [hp]
+  · rw [← hc]; unfold Key.contract
+    rw [hb 4 (by omega), hb 5 (by omega), hb 6 (by omega), hb 7 (by omega)]
+  · rw [← hs]; unfold Key.signature
+    rw [hb 8 (by omega), hb 9 (by omega), hb 10 (by omega), hb 11 (by omega)]
+  · rw [← hm]; unfold Key.master
+    rw [hb 2 (by omega), hb 3 (by omega)]
+  · have : (preKey mk access expires salt).expireField = (pk6 mk access expires salt).expireField := by
+      unfold Key.expireField preKey
+      rw [setPermissions_b _ _ 20 l6, setPermissions_b _ _ 21 l6, setPermissions_b _ _ 22 l6,
+        setPermissions_b _ _ 23 l6]
+      simp
+    rw [this]
+    unfold pk6
+    exact setExpires_expireField _ _ expires l5 (by simp)
+
+theorem fields_of_b (k k' : Key) (h : ∀ i, i < 12 ∨ i = 15 ∨ 20 ≤ i → k'.b i = k.b i) :
+    k'.permissions = k.permissions ∧ k'.contract = k.contract ∧ k'.signature = k.signature ∧
+    k'.master = k.master ∧ k'.expireField = k.expireField := by
+  unfold Key.permissions Key.contract Key.signature Key.master Key.expireField
+  rw [h 15 (by omega), h 4 (by omega), h 5 (by omega), h 6 (by omega), h 7 (by omega), h 8 (by omega),
+    h 9 (by omega), h 10 (by omega), h 11 (by omega), h 2 (by omega), h 3 (by omega), h 20 (by omega),
+    h 21 (by omega), h 22 (by omega), h 23 (by omega)]
+  exact ⟨rfl, rfl, rfl, rfl, rfl⟩
+
+theorem hasPermission_false (k : Key) (flag : UInt8) (h0 : k.permissions &&& flag = 0) (hf : flag ≠ 0) :
+    k.hasPermission flag = false := by
+  unfold Key.hasPermission
+  rw [h0, beq_eq_false_iff_ne]
+  exact fun h => hf h.symm
 
 /-- only a valid, unexpired master key of the allowed contract (with matching signature and
 master id) can mint keys -/
 theorem createKey_requires_master (e : Env) (masterStr channel : Bytes) (access : UInt8) (expires : Int) (salt : UInt16)
     (k : Key) (h : createKey e masterStr channel access expires salt = .ok k) :
     ∃ mk, e.decrypt masterStr = some mk ∧ mk.isMaster = true ∧ mk.isExpired e.now = false ∧ e.contractOk mk = true := by
-  sorry
+  obtain ⟨mk, h1, h2, h3, h4, _⟩ := createKey_ok e masterStr channel access expires salt k h
+  exact ⟨mk, h1, h2, h3, h4⟩
 
 /-- a created key never has the master permission and never a permission that was not
 requested; it keeps the parent's contract, signature and master id; it carries the requested
@@ -24,20 +282,154 @@ theorem createKey_fields (e : Env) (masterStr channel : Bytes) (access : UInt8) 
     k.contract = mk.contract ∧ k.signature = mk.signature ∧ k.master = mk.master ∧
     k.expireField = (Key.setExpires (List.replicate 24 (0 : UInt8)) expires).expireField ∧
     k.length = 24 := by
-  sorry
+  have _ := hl
+  obtain ⟨mk', h1, _, _, _, ht⟩ := createKey_ok e masterStr channel access expires salt k h
+  rw [hd] at h1; cases h1
+  obtain ⟨pl, pp, pc, ps, pm, pe⟩ := preKey_facts mk access expires salt
+  obtain ⟨kl, kb, _⟩ := setTarget_rel _ (List.replicate 24 0) pl (by simp) channel k ht
+  obtain ⟨fp, fc, fs, fm, fe⟩ := fields_of_b _ k kb
+  have hperm : k.permissions = access &&& (0xFF ^^^ permMaster) := by rw [fp, pp]
+  refine ⟨hperm, ?_, ?_, by rw [fc, pc], by rw [fs, ps], by rw [fm, pm], by rw [fe, pe], kl⟩
+  · exact hasPermission_false k permMaster (by rw [hperm]; exact u8_clear_master access) (by decide)
+  · rw [hperm]; exact u8_and_mask_self _ _
 
 /-- the target of a created key is `SetTarget(channel)`: same bit path and hash as setting the
 target on any other 24-byte key -/
 theorem createKey_target (e : Env) (masterStr channel : Bytes) (access : UInt8) (expires : Int) (salt : UInt16)
     (k : Key) (h : createKey e masterStr channel access expires salt = .ok k) :
     ∃ k0, Key.setTarget (List.replicate 24 0) channel = .ok k0 ∧ k.targetPath = k0.targetPath ∧ k.target = k0.target := by
-  sorry
+  obtain ⟨mk, _, _, _, _, ht⟩ := createKey_ok e masterStr channel access expires salt k h
+  exact (setTarget_rel _ (List.replicate 24 0) (preKey_facts mk access expires salt).1 (by simp) channel k ht).2.2
 
-/-- extension: the parent must authorize Extend on the (static) channel -/
-theorem extendKey_requires_extend (e : Env) (keyStr channelName connId : Bytes) (access : UInt8) (expires : Int)
+theorem takeWhile_append_sep (a b : Bytes) :
+    (a ++ sep :: b).takeWhile (· != sep) = a.takeWhile (· != sep) := by
+  induction a with
+  | nil => simp
+  | cons c a ih =>
+    simp only [List.cons_append, List.takeWhile_cons]
+    split
+    · rw [ih]
+    · rfl
+
+theorem takeWhile_no_sep (a : Bytes) (h : sep ∉ a) : a.takeWhile (· != sep) = a := by
+  induction a with
+  | nil => rfl
+  | cons c a ih =>
+    have hc : (c != sep) = true := by
+      simp only [bne_iff_ne, ne_eq]; intro hh; exact h (by simp [hh])
+    simp only [List.takeWhile_cons, hc, if_true]
+    rw [ih (fun hh => h (List.mem_cons_of_mem _ hh))]
+
+theorem parseKey_fst (text k rest : Bytes) (h : parseKey text = some (k, rest)) :
+    k = text.takeWhile (· != sep) := by
+  unfold parseKey at h
+  simp only [] at h
+  split at h
+  · simp only [Option.some.injEq, Prod.mk.injEq] at h; exact h.1.symm
+  · cases h
+
+/-- a channel that parses (type not invalid) carries as its key the text before the first '/' -/
+theorem parseChannel_key (text : Bytes) (h : (parseChannel text).ctype ≠ chInvalid) :
+    (parseChannel text).key = text.takeWhile (· != sep) := by
+  unfold parseChannel at h ⊢
+  cases hk : parseKey text with
+  | none => rw [hk] at h; exact absurd rfl h
+  | some kr =>
+    obtain ⟨k, rest⟩ := kr
+    have := parseKey_fst text k rest hk
+    subst this
+    simp only []
+    cases parseChanLoop rest {} with
+    | none => rfl
+    | some r =>
+      obtain ⟨q, clen, ty, used⟩ := r
+      simp only []
+      split
+      · rfl
+      · cases parseOptions ((rest.drop used).length + 1) (rest.drop used) <;> rfl
+
+/-- the key `ExtendKey` hands to `SetTarget` -/
+def extPre (parent : Key) (access : UInt8) (expires : Int) : Key :=
+  Key.setExpires
+    (Key.setPermissions (Key.setPermissions parent (parent.permissions &&& (0xFF ^^^ permExtend)))
+      ((Key.setPermissions parent (parent.permissions &&& (0xFF ^^^ permExtend))).permissions &&& access)) expires
+
+theorem extendKey_ok (e : Env) (keyStr channelName connId : Bytes) (access : UInt8) (expires : Int)
     (k : Key) (target : Bytes) (h : extendKey e keyStr channelName connId access expires = .ok (k, target)) :
+    (parseChannel (keyStr ++ [sep] ++ (if hasSuffix channelName [35, 47] then channelName.take (channelName.length - 2) else channelName))).ctype = chStatic ∧
+    ∃ parent, authorize e (parseChannel (keyStr ++ [sep] ++ (if hasSuffix channelName [35, 47] then channelName.take (channelName.length - 2) else channelName))) permExtend = some parent ∧
+      target = (parseChannel (keyStr ++ [sep] ++ (if hasSuffix channelName [35, 47] then channelName.take (channelName.length - 2) else channelName))).channel ++ connId ++ [sep] ++ (if hasSuffix channelName [35, 47] then [35, 47] else []) ∧
+      (extPre parent access expires).setTarget target = .ok k := by
+  unfold extendKey at h
+  simp only [] at h
+  generalize parseChannel (keyStr ++ [sep] ++ (if hasSuffix channelName [35, 47] then channelName.take (channelName.length - 2) else channelName)) = ch at h ⊢
+  by_cases h1 : (ch.ctype != chStatic) = true
+  · rw [if_pos h1] at h; cases h
+  · rw [if_neg h1] at h
+    refine ⟨by simpa using h1, ?_⟩
+    cases ha : authorize e ch permExtend with
+    | none => rw [ha] at h; cases h
+    | some parent =>
+      rw [ha] at h
+      simp only [] at h
+      refine ⟨parent, rfl, ?_⟩
+      generalize hT : ch.channel ++ connId ++ [sep] ++ (if hasSuffix channelName [35, 47] then [35, 47] else []) = T at h ⊢
+      change (match (extPre parent access expires).setTarget T with
+        | .ok k' => Outcome.ok (k', T)
+        | .err x => .err x
+        | .panic w => .panic w) = _ at h
+      cases hs : (extPre parent access expires).setTarget T with
+      | ok k' => rw [hs] at h; simp only [Outcome.ok.injEq, Prod.mk.injEq] at h; exact ⟨h.2.symm, by rw [← h.2, hs, h.1]⟩
+      | err x => rw [hs] at h; cases h
+      | panic w => rw [hs] at h; cases h
+
+theorem extPre_facts (parent : Key) (access : UInt8) (expires : Int) (hl : parent.length = 24) :
+    (extPre parent access expires).length = 24 ∧
+    (extPre parent access expires).permissions = (parent.permissions &&& (0xFF ^^^ permExtend)) &&& access ∧
+    ∀ j, j < 15 → (extPre parent access expires).b j = parent.b j := by
+  have l1 := len24_setPermissions parent (parent.permissions &&& (0xFF ^^^ permExtend)) hl
+  have l2 := len24_setPermissions _ ((Key.setPermissions parent (parent.permissions &&& (0xFF ^^^ permExtend))).permissions &&& access) l1
+  have l3 : (extPre parent access expires).length = 24 := len24_setExpires _ expires l2
+  refine ⟨l3, ?_, ?_⟩
+  · have hp1 := setPermissions_permissions parent (parent.permissions &&& (0xFF ^^^ permExtend)) hl
+    have hp2 := setPermissions_permissions _
+      ((Key.setPermissions parent (parent.permissions &&& (0xFF ^^^ permExtend))).permissions &&& access) l1
+    have hp3 : (extPre parent access expires).permissions =
+        (Key.setPermissions (Key.setPermissions parent (parent.permissions &&& (0xFF ^^^ permExtend)))
+          ((Key.setPermissions parent (parent.permissions &&& (0xFF ^^^ permExtend))).permissions &&& access)).permissions := by
+      unfold extPre; exact setExpires_b_out _ _ 15 l2 (by omega)
+    rw [hp3, hp2, hp1]
+  · intro j hj
+    unfold extPre
+    rw [setExpires_b_out _ _ j l2 (by omega), setPermissions_b _ _ j l1, if_neg (by omega),
+      setPermissions_b _ _ j hl, if_neg (by omega)]
+
+/-- extension: the parent must authorize Extend on the (static) channel; the channel that is
+authorized carries as its key the part of `keyStr` before its first '/' (unconditional form) -/
+theorem extendKey_requires_extend_gen (e : Env) (keyStr channelName connId : Bytes) (access : UInt8) (expires : Int)
+    (k : Key) (target : Bytes) (h : extendKey e keyStr channelName connId access expires = .ok (k, target)) :
+    ∃ parent ch, ch.ctype = chStatic ∧ authorize e ch permExtend = some parent ∧
+      ch.key = keyStr.takeWhile (· != sep) := by
+  obtain ⟨hs, parent, ha, _, _⟩ := extendKey_ok e keyStr channelName connId access expires k target h
+  refine ⟨parent, _, hs, ha, ?_⟩
+  rw [parseChannel_key _ (by rw [hs]; decide), List.append_assoc]
+  exact takeWhile_append_sep _ _
+
+/-- extension: the parent must authorize Extend on the (static) channel.
+
+AMENDED: hypothesis `hs : sep ∉ keyStr` added. `ExtendKey` parses `keyStr ++ "/" ++ channel`, so a
+key string that itself contains '/' is cut at its first '/': the channel that gets authorized
+carries that prefix as its key, not `keyStr`, and `keyStr` itself (longer than 32 bytes) does not
+decrypt. Counterexample to the statement without `hs`: `keyStr = K ++ "/a"` with `K` a valid
+32-character extend key for "#/", `channelName = "b/"`: `extendKey` succeeds (target "a/b/<conn>/")
+but no channel with key `keyStr` can be authorized. `extendKey_requires_extend_gen` is the form
+without the hypothesis. -/
+theorem extendKey_requires_extend (e : Env) (keyStr channelName connId : Bytes) (access : UInt8) (expires : Int)
+    (k : Key) (target : Bytes) (hs : sep ∉ keyStr)
+    (h : extendKey e keyStr channelName connId access expires = .ok (k, target)) :
     ∃ parent ch, ch.ctype = chStatic ∧ authorize e ch permExtend = some parent ∧ ch.key = keyStr := by
-  sorry
+  obtain ⟨parent, ch, h1, h2, h3⟩ := extendKey_requires_extend_gen e keyStr channelName connId access expires k target h
+  exact ⟨parent, ch, h1, h2, by rw [h3, takeWhile_no_sep _ hs]⟩
 
 /-- an extended key has only permissions that were requested AND held by the parent, never
 extend; same contract, signature, master id; it targets exactly the sub-channel named after
@@ -53,58 +445,169 @@ theorem extendKey_subset (e : Env) (keyStr channelName connId : Bytes) (access :
     k.contract = parent.contract ∧ k.signature = parent.signature ∧ k.master = parent.master ∧
     target = ch.channel ++ connId ++ [sep] ++ (if hasSuffix channelName [35, 47] then [35, 47] else []) ∧
     (∃ k0, Key.setTarget (List.replicate 24 0) target = .ok k0 ∧ k.targetPath = k0.targetPath ∧ k.target = k0.target) := by
-  sorry
+  obtain ⟨_, parent', ha, htgt, hst⟩ := extendKey_ok e keyStr channelName connId access expires k target h
+  rw [← hch] at ha htgt
+  rw [hp] at ha; cases ha
+  obtain ⟨xl, xp, xb⟩ := extPre_facts parent access expires hl
+  obtain ⟨_, kb, hk0⟩ := setTarget_rel _ (List.replicate 24 0) xl (by simp) target k hst
+  have hb : ∀ j, j < 12 → k.b j = parent.b j := fun j hj => by rw [kb j (by omega), xb j (by omega)]
+  have hperm : k.permissions = (parent.permissions &&& (0xFF ^^^ permExtend)) &&& access := by
+    rw [← xp]; exact kb 15 (by omega)
+  refine ⟨hperm, ?_, ?_, ?_, ?_, ?_, ?_, htgt, hk0⟩
+  · exact hasPermission_false k permExtend (by rw [hperm]; exact u8_clear_extend _ _) (by decide)
+  · rw [hperm]; exact u8_sub_parent _ _ _
+  · rw [hperm, u8_and_and_self]
+  · unfold Key.contract; rw [hb 4 (by omega), hb 5 (by omega), hb 6 (by omega), hb 7 (by omega)]
+  · unfold Key.signature; rw [hb 8 (by omega), hb 9 (by omega), hb 10 (by omega), hb 11 (by omega)]
+  · unfold Key.master; rw [hb 2 (by omega), hb 3 (by omega)]
+
+theorem accessOf_aux (ty : Bytes) (acc : UInt8) (h : acc &&& permMaster = 0) :
+    (ty.foldl (fun acc c =>
+    if c == 114 then acc ||| permRead else if c == 119 then acc ||| permWrite
+    else if c == 115 then acc ||| permStore else if c == 108 then acc ||| permLoad
+    else if c == 112 then acc ||| permPresence else if c == 101 then acc ||| permExtend
+    else if c == 120 then acc ||| permExecute else acc) acc) &&& permMaster = 0 := by
+  induction ty generalizing acc with
+  | nil => exact h
+  | cons c cs ih =>
+    rw [List.foldl_cons]
+    apply ih
+    have step : ∀ f : UInt8, f &&& permMaster = 0 → (acc ||| f) &&& permMaster = 0 := by
+      intro f hf; rw [u8_or_and, h, hf]; rfl
+    split
+    · exact step _ (by decide)
+    split
+    · exact step _ (by decide)
+    split
+    · exact step _ (by decide)
+    split
+    · exact step _ (by decide)
+    split
+    · exact step _ (by decide)
+    split
+    · exact step _ (by decide)
+    split
+    · exact step _ (by decide)
+    exact h
 
 /-- `Request.access()`: the permission mask of a type string contains a bit only if its letter
 occurs, and never the master bit -/
-theorem accessOf_no_master (ty : Bytes) : accessOf ty &&& permMaster = 0 := by
-  sorry
+theorem accessOf_no_master (ty : Bytes) : accessOf ty &&& permMaster = 0 :=
+  accessOf_aux ty 0 (by decide)
 
 /-! ### C14: banning -/
+
+theorem keyban_cases (e : Env) (secret target : Bytes) (want : Bool) :
+    ((keyban e secret target want).2 = 401 ∧ (keyban e secret target want).1 = e.banned) ∨
+    (∃ sk tk, e.decrypt secret = some sk ∧ sk.isMaster = true ∧ sk.isExpired e.now = false ∧
+      e.decrypt target = some tk ∧ tk.contract = sk.contract ∧
+      keyban e secret target want =
+        (if want && !e.banned.contains target then (target :: e.banned, 200)
+          else if !want && e.banned.contains target then (e.banned.filter (· != target), 200)
+          else (e.banned, 200))) := by
+  unfold keyban
+  cases hs : e.decrypt secret with
+  | none => left; exact ⟨rfl, rfl⟩
+  | some sk =>
+    dsimp only
+    by_cases h1 : (sk.isExpired e.now || !sk.isMaster) = true
+    · left; rw [if_pos h1]; exact ⟨rfl, rfl⟩
+    · rw [if_neg h1]
+      cases ht : e.decrypt target with
+      | none => left; exact ⟨rfl, rfl⟩
+      | some tk =>
+        dsimp only
+        by_cases h2 : (tk.contract != sk.contract) = true
+        · left; rw [if_pos h2]; exact ⟨rfl, rfl⟩
+        · rw [if_neg h2]
+          right
+          refine ⟨sk, tk, rfl, ?_, ?_, rfl, ?_, rfl⟩
+          · cases h : sk.isMaster <;> simp_all
+          · cases h : sk.isExpired e.now <;> simp_all
+          · simpa using h2
 
 /-- an acknowledged ban puts the key in the ban set, … -/
 theorem keyban_ban (e : Env) (secret target : Bytes) (h : (keyban e secret target true).2 = 200) :
     target ∈ (keyban e secret target true).1 := by
-  sorry
+  rcases keyban_cases e secret target true with ⟨h401, _⟩ | ⟨sk, tk, _, _, _, _, _, hk⟩
+  · rw [h401] at h; exact absurd h (by decide)
+  · rw [hk]
+    cases hc : e.banned.contains target
+    · simp
+    · have : target ∈ e.banned := by simpa using hc
+      simpa using this
 
 /-- … an acknowledged unban takes it out, … -/
 theorem keyban_unban (e : Env) (secret target : Bytes) (h : (keyban e secret target false).2 = 200) :
     target ∉ (keyban e secret target false).1 := by
-  sorry
+  rcases keyban_cases e secret target false with ⟨h401, _⟩ | ⟨sk, tk, _, _, _, _, _, hk⟩
+  · rw [h401] at h; exact absurd h (by decide)
+  · rw [hk]
+    cases hc : e.banned.contains target
+    · have : target ∉ e.banned := by simpa using hc
+      simpa using this
+    · simp
 
 /-- … other keys are never affected, and a refused request changes nothing -/
 theorem keyban_others (e : Env) (secret target other : Bytes) (want : Bool) (hne : other ≠ target) :
     (other ∈ (keyban e secret target want).1 ↔ other ∈ e.banned) := by
-  sorry
+  rcases keyban_cases e secret target want with ⟨_, hb⟩ | ⟨sk, tk, _, _, _, _, _, hk⟩
+  · rw [hb]
+  · rw [hk]
+    cases want <;> cases hc : e.banned.contains target <;> simp [hne]
 
 theorem keyban_refused_noop (e : Env) (secret target : Bytes) (want : Bool) (h : (keyban e secret target want).2 ≠ 200) :
     (keyban e secret target want).1 = e.banned := by
-  sorry
+  rcases keyban_cases e secret target want with ⟨_, hb⟩ | ⟨sk, tk, _, _, _, _, _, hk⟩
+  · exact hb
+  · exfalso; apply h; rw [hk]
+    cases want <;> cases hc : e.banned.contains target <;> simp
 
 /-- only an unexpired master key can ban, and only keys of its own contract -/
 theorem keyban_requires_master (e : Env) (secret target : Bytes) (want : Bool) (h : (keyban e secret target want).2 = 200) :
     ∃ sk tk, e.decrypt secret = some sk ∧ sk.isMaster = true ∧ sk.isExpired e.now = false ∧
       e.decrypt target = some tk ∧ tk.contract = sk.contract := by
-  sorry
+  rcases keyban_cases e secret target want with ⟨h401, _⟩ | ⟨sk, tk, h1, h2, h3, h4, h5, _⟩
+  · rw [h401] at h; exact absurd h (by decide)
+  · exact ⟨sk, tk, h1, h2, h3, h4, h5⟩
 
 /-- from the moment a ban is acknowledged every operation presenting the key is refused -/
 theorem banned_key_refused (e : Env) (secret target : Bytes) (h : (keyban e secret target true).2 = 200)
     (ch : Channel) (hk : ch.key = target) (perm : UInt8) :
     authorize { e with banned := (keyban e secret target true).1 } ch perm = none := by
-  sorry
+  apply banned_refused
+  have := keyban_ban e secret target h
+  simpa [hk] using this
+
+theorem authorize_not_banned (e : Env) (bn : List Bytes) (ch : Channel) (perm : UInt8) (h : ch.key ∉ bn) :
+    authorize { e with banned := bn } ch perm = authorize { e with banned := [] } ch perm := by
+  have hc : bn.contains ch.key = false := by simpa using h
+  unfold authorize Env.decrypt Env.contractOk
+  simp only [hc, List.contains_nil]
 
 /-- from the moment an unban is acknowledged the key is decided by the key alone -/
 theorem unbanned_key_decided_by_key (e : Env) (secret target : Bytes) (h : (keyban e secret target false).2 = 200)
     (ch : Channel) (hk : ch.key = target) (perm : UInt8) :
     authorize { e with banned := (keyban e secret target false).1 } ch perm = authorize { e with banned := [] } ch perm := by
-  sorry
+  apply authorize_not_banned
+  rw [hk]; exact keyban_unban e secret target h
 
 /-- any sequence of acknowledged toggles: the key is banned afterwards iff the last toggle was a ban -/
 theorem toggles_last_wins (e : Env) (secret target : Bytes) (ts : List Bool) (last : Bool)
     (hok : ∀ b (e' : Env), e'.cipher = e.cipher → e'.now = e.now → (keyban e' secret target b).2 = 200) :
     let final := (ts ++ [last]).foldl (fun bn w => (keyban { e with banned := bn } secret target w).1) e.banned
     (target ∈ final ↔ last = true) := by
-  sorry
+  intro final
+  have hf : final = (keyban { e with banned := ts.foldl (fun bn w => (keyban { e with banned := bn } secret target w).1) e.banned } secret target last).1 := by
+    simp only [final, List.foldl_append, List.foldl_cons, List.foldl_nil]
+  rw [hf]
+  generalize ts.foldl (fun bn w => (keyban { e with banned := bn } secret target w).1) e.banned = mid
+  have h200 := hok last { e with banned := mid } rfl rfl
+  cases last
+  · have := keyban_unban _ secret target h200
+    simp [this]
+  · have := keyban_ban _ secret target h200
+    simp [this]
 
 end Emitter.Security
 
@@ -113,16 +616,25 @@ open Emitter
 
 /-- a restart keeps the store, drops the cache: coherent, and `Has` answers from the store -/
 theorem coherent_restart (d : Durable) : d.restart.coherent := by
-  sorry
+  intro k v h
+  exact absurd h (by simp [Durable.restart])
 
-theorem restart_has (d : Durable) (k : Bytes) : (d.restart.has k).1 = (get d.db k).isAdded := by
-  sorry
+theorem restart_has (d : Durable) (k : Bytes) : (d.restart.has k).1 = (get d.db k).isAdded :=
+  (durable_has_truth d.restart k (coherent_restart d)).1
 
 /-- a ban merged into another broker takes effect whether or not that broker had looked the
 key up before (any cache content, as long as it is coherent) -/
 theorem merged_ban_effective (d : Durable) (hc : d.coherent) (hn : NonNeg d.db) (k : Bytes) (t : Int) (p : Bytes)
     (ht : 0 < t) (hnew : (get d.db k).del ≤ t) :
     ((d.merge [(k, ⟨t, 0, p⟩)]).1.has k).1 = true := by
-  sorry
+  rw [(durable_has_truth _ k (coherent_merge d _ hc)).1, (durable_merge_refines d _).1, isAdded_iff]
+  have h := tget_merge d.db [(k, ⟨t, 0, p⟩)] hn (nodup_singleton k _) k
+  have h2 : tget [(k, (⟨t, 0, p⟩ : Val))] k = (t, 0) := by
+    unfold tget; rw [get_cons, if_pos rfl]
+  rw [h2] at h
+  unfold tget tmax at h
+  simp only [Prod.mk.injEq] at h
+  have := hn k
+  omega
 
 end Emitter.Lww
